@@ -1,6 +1,6 @@
 (* C08 — Visual order of the runs of a line follows the Unicode Bidi Algorithm (rule L2).  Property theorems only. *)
 From Coq Require Import Permutation.
-From TV Require Import Lib.GoNum Model.BidiOrder Spec.L2 Proofs.BidiOrder Proofs.L2Levels.
+From TV Require Import Lib.GoNum Model.BidiOrder Spec.L2 Proofs.BidiOrder Proofs.L2Levels Proofs.BidiOrderIdem.
 
 (* swapVisualOrder reverses the visual indices of the subline (any length) *)
 Theorem swap_visual_order_reverses : forall v, swap_visual_order v = rev v.
@@ -20,6 +20,22 @@ Theorem ordering_ignores_stale_indices : forall pdir line line',
   map r_vis (compute_bidi_ordering pdir line) = map r_vis (compute_bidi_ordering pdir line').
 Proof. exact cbo_vis_dirs. Qed.
 Print Assumptions ordering_ignores_stale_indices.
+
+(* computeBidiOrdering never touches the directions, so ordering a line that is already ordered changes nothing
+   (the wrapper may order the same runs again after trimming or truncation without effect) *)
+Theorem ordering_keeps_directions : forall pdir line, map r_dir (compute_bidi_ordering pdir line) = map r_dir line.
+Proof. exact cbo_keeps_dirs. Qed.
+Print Assumptions ordering_keeps_directions.
+
+Theorem ordering_idempotent : forall pdir line,
+  map r_vis (compute_bidi_ordering pdir (compute_bidi_ordering pdir line)) = map r_vis (compute_bidi_ordering pdir line).
+Proof. exact cbo_idempotent_vis. Qed.
+Print Assumptions ordering_idempotent.
+
+(* no two runs of a line share a visual position *)
+Theorem visual_indices_distinct : forall pdir line, NoDup (map r_vis (compute_bidi_ordering pdir line)).
+Proof. exact cbo_vis_nodup. Qed.
+Print Assumptions visual_indices_distinct.
 
 (* rule L2 when the line nests at most one level above the paragraph level p (p = 0 LTR/TTB, p = 1 RTL/BTT),
    every run's progression being the parity of its level (any orientation bits): the runs put in the order
